@@ -122,12 +122,40 @@ let lazyedit args =
      | e -> res_err e ^ " step=parse")
   | _ -> "bad-args"
 
+(* `ftypbox <hex of one whole box> <0|1>`: Mp4Box::<FtypBox>::parse (header + its payload), optionally the lazy parse of the payload
+   (Box.parse_ftyp: major brand, minor version, all remaining bytes as the brand array), then put_buf / encoded_len: the bytes of the
+   box as parsed, whatever was forced *)
+let ftypbox args =
+  match args with
+  | [hx; force] ->
+    let b = unhex hx in
+    (match Model.hdr_read b with
+     | None -> "err parse TruncatedBox step=parse"
+     | Some (h, rest) ->
+       (match Model.box_data_size h with
+        | Model.Ok ods ->
+          let (payload, after) = (match ods with
+              | None -> (rest, [])
+              | Some n ->
+                let k = int_of_cn n in
+                if k > List.length rest then ([], [Model.n2b Model.N0]) (* marker: truncated *)
+                else (List.filteri (fun i _ -> i < k) rest, List.filteri (fun i _ -> i >= k) rest)) in
+          if (match ods with Some n -> int_of_cn n > List.length rest | None -> false) then "err parse TruncatedBox step=parse"
+          else if force = "1" && (match Model.parse_ftyp payload with Model.Ok _ -> false | _ -> true) then "err parse TruncatedBox step=0"
+          else
+            let node = Model.Raw (h, payload) in
+            let out = Model.put_node node in
+            Printf.sprintf "ok put=%s elen=%d rest=%d" (let x = hex out in if x = "" then "-" else x) (List.length out) (List.length after)
+        | e -> res_err e ^ " step=parse"))
+  | _ -> "bad-args"
+
 let dispatch kind args =
   match kind with
   | "hdrparse" -> hdrparse args
   | "hdrmk" -> hdrmk args
   | "lazy" -> lazy_ args
   | "lazyedit" -> lazyedit args
+  | "ftypbox" -> ftypbox args
   | _ -> "unknown-kind " ^ kind
 
 let () = main_loop dispatch
